@@ -26,21 +26,23 @@ MANIFEST = {
              "is sent. The type table, the escape entity table and the exception hierarchy are regenerated from the "
              "source on every run and pinned by decide-theorems. The model is tied to client.py by literal comparison of "
              "method/url/headers/body text of every generated call and of readEnvelope against the real XML parser's tree; "
-             "C06.ok is evaluated on the implementation's request."),
+             "C06.ok is evaluated on the implementation's request, for every call of every generated history on one "
+             "long-lived device/service/action object (c06_history_ok: the model's request construction is a pure function "
+             "of current description URL, control URL, action and assignment)."),
     "note": ("Trusted: Lean kernel + standard axioms; XML text<->tree of the real parser is sampled, not proved (readEnvelope "
              "recognises only the shape the client emits); float() / parse_date_time are oracles (hypotheses in the theorems, "
              "tables from the real primitives at run time); urljoin/netloc modelled on a restricted URL grammar; values at "
-             "second precision; names and service types free of XML markup."),
+             "second precision; action/argument names inside the XML-name domain (xmlNameOk); service types arbitrary."),
     "technique": "Lean 4 proof (model satisfies the judge for all inputs; renderer/recogniser inverse) + generated tables + model/implementation correspondence",
 }
-RULE = ("one case = one generated service/action (0..6 in-arguments and 0..2 out-arguments over all 26 data types, "
+RULE = ("one case = a HISTORY of 1..6 calls (same / different / repeated invalid / valid-invalid-valid assignments, UpnpDevice.reinit between calls) on one generated service/action (0..6 in-arguments and 0..2 out-arguments over all 26 data types, "
         "ranges, allowed lists, strict and non-strict factory) built by the real UpnpFactory from generated XML, and "
         "one caller assignment (valid, boundary, out of range, non-member, wrong Python type incl. bool for int, "
         "missing, extra); strings over XML-legal Unicode with markup, CR/LF/TAB and non-BMP characters. "
         "non-trivial = at least one in-argument; distinct = distinct canonical driver text")
 EXHAUSTIVE = {"quick": False, "thorough": False}
 ASSUMPTIONS = [
-    "argument/action names are XML names without markup; service types contain no XML markup or quotes (they are interpolated unescaped)",
+    "argument/action names are XML names (domain predicate xmlNameOk: they are written as element names, where no escaping exists); service types are arbitrary text (quoted by quoteattr since F06c)",
     "argument names are distinct within an action",
     "date/time values have second precision (the wire format has no fractional seconds)",
     "string values contain only characters legal in XML 1.0",
@@ -227,14 +229,19 @@ def run(coro):
     return _LOOP.run_until_complete(coro)
 
 
-def build_action(decl: Dict[str, Any], response):
+def build_device(decl: Dict[str, Any], response):
     from async_upnp_client.client_factory import UpnpFactory
 
     req = Requester(decl, response)
     factory = UpnpFactory(req, non_strict=not decl["strict"])
     device = run(factory.async_create_device(decl["device_url"]))
     service = device.services[decl["service_type"]]
-    return req, service.action(decl["action"])
+    return req, device, service.action(decl["action"])
+
+
+def build_action(decl: Dict[str, Any], response):
+    req, _device, action = build_device(decl, response)
+    return req, action
 
 
 def lib_mro(e: BaseException) -> str:
@@ -306,64 +313,98 @@ EMPTY_RESPONSE = ('<?xml version="1.0"?><s:Envelope xmlns:s="http://schemas.xmls
                   '<u:{a}Response xmlns:u="{st}"></u:{a}Response></s:Body></s:Envelope>')
 
 
+def _ops_of(recipe: Dict[str, Any]) -> List[Any]:
+    """a recipe is a history on ONE device / service / action object: `["call", kwargs]` and
+    `["reinit", {"device_url":…, "control_url":…}]` (UpnpDevice.reinit from a freshly built device, the
+    DeviceUpdater path).  The older single-call form {decl, kwargs} is a history of length one."""
+    if "ops" in recipe:
+        return list(recipe["ops"])
+    return [["call", recipe["kwargs"]]]
+
+
 def run_recipe(ctx: Ctx, recipe: Dict[str, Any], cid: str) -> Case:
     decl = recipe["decl"]
-    kwargs = {n: val_unjson(j) for n, j in recipe["kwargs"]}
     from xml.sax.saxutils import quoteattr
     resp_body = ('<?xml version="1.0"?><s:Envelope xmlns:s="http://schemas.xmlsoap.org/soap/envelope/"><s:Body>'
                  f'<u:{decl["action"]}Response xmlns:u={quoteattr(decl["service_type"])}/></s:Body></s:Envelope>')
-    req, action = build_action(decl, (200, {}, resp_body))
-    exc: Optional[BaseException] = None
-    try:
-        run(action.async_call(**kwargs))
-    except Exception as e:  # noqa: BLE001 - the exception is the observation
-        exc = e
+    req, device, action = build_device(decl, (200, {}, resp_body))
     lines = decl_lines(decl)
-    for n, v in kwargs.items():
-        lines.append(f"kw {tok_str(n)} {val_tok(v)}")
-    # texts that need the float()/parse_date_time oracle: what the caller supplied, rendered, and what was sent
-    texts: Dict[str, List[str]] = {}
-    for n, v in kwargs.items():
-        if isinstance(v, float):
-            texts.setdefault(n, []).append(repr(v))
-        elif isinstance(v, (date, time)):
-            texts.setdefault(n, []).append(v.isoformat())
-    body = req.log[0][3] if req.log else None
-    tl = tree_lines(body)
-    if req.log and tl[0] != "tree ~":
-        import defusedxml.ElementTree as DET
-        root = DET.fromstring(body)
-        for el in root.iter():
-            if "}" not in el.tag:
-                texts.setdefault(el.tag, []).append(el.text or "")
-    lines += oracle_lines(decl, texts)
-    lines.append(f"sent {len(req.log)}")
-    lines.append("exc ~" if exc is None else f"exc {exc_token(exc)} {lib_mro(exc)}")
-    tags = {f"strict:{decl['strict']}", f"nin:{sum(1 for a in decl['args'] if a['dir'] == 'in')}"}
-    if req.log:
-        method, url, headers, body = req.log[0]
-        lines.append(f"req {tok_str(method)} {tok_str(url)} {tok_str(body if isinstance(body, str) else '')}")
-        for k, v in (headers or {}).items():
-            lines.append(f"hdr {tok_str(str(k))} {tok_str(str(v))}")
-        lines += tl
-        tags.add("sent")
-    else:
-        tags.add("refused:" + (exc_token(exc) if exc else "none"))
-    for a in decl["args"]:
-        if a["dir"] == "in":
-            tags.add("type:" + a["type"])
-            if a["name"] in kwargs:
-                tags.add(f"val:{kind_of(a['type'])}<-{val_class(kwargs[a['name']])}")
-            else:
-                tags.add("val:missing")
-            if a.get("range"):
-                tags.add("decl:range")
-            if a.get("allowed"):
-                tags.add("decl:allowed")
-    sig_args = ",".join(sorted(f"{a['type']}:{val_class(kwargs[a['name']]) if a['name'] in kwargs else 'missing'}"
-                               for a in decl["args"] if a["dir"] == "in"))
+    ops = _ops_of(recipe)
+    tags = {f"strict:{decl['strict']}", f"nin:{sum(1 for a in decl['args'] if a['dir'] == 'in')}",
+            f"calls:{min(sum(1 for o in ops if o[0] == 'call'), 6)}"}
+    sigs: List[str] = []
+    prev_sent: Optional[bool] = None
+    prev_kw = None
+    for op in ops:
+        if op[0] == "reinit":
+            # the device is re-initialised in place from a description fetched at another location
+            decl2 = dict(decl, device_url=op[1]["device_url"], control_url=op[1].get("control_url", decl["control_url"]))
+            _r2, device2, _a2 = build_device(decl2, (200, {}, resp_body))
+            device.reinit(device2)
+            lines.append(f"reinit {tok_str(decl2['device_url'])} {tok_str(decl2['control_url'])}")
+            tags.add("op:reinit")
+            if decl2["control_url"] != decl["control_url"]:
+                tags.add("op:reinit-control-url-differs")
+            continue
+        kwargs = {n: val_unjson(j) for n, j in op[1]}
+        n0 = len(req.log)
+        exc: Optional[BaseException] = None
+        try:
+            run(action.async_call(**kwargs))
+        except Exception as e:  # noqa: BLE001 - the exception is the observation
+            exc = e
+        log = req.log[n0:]
+        lines.append("call")
+        for n, v in kwargs.items():
+            lines.append(f"kw {tok_str(n)} {val_tok(v)}")
+        # texts that need the float()/parse_date_time oracle: what the caller supplied, rendered, and what was sent
+        texts: Dict[str, List[str]] = {}
+        for n, v in kwargs.items():
+            if isinstance(v, float):
+                texts.setdefault(n, []).append(repr(v))
+            elif isinstance(v, (date, time)):
+                texts.setdefault(n, []).append(v.isoformat())
+        body = log[0][3] if log else None
+        tl = tree_lines(body)
+        if log and tl[0] != "tree ~":
+            import defusedxml.ElementTree as DET
+            root = DET.fromstring(body)
+            for el in root.iter():
+                if "}" not in el.tag:
+                    texts.setdefault(el.tag, []).append(el.text or "")
+        lines += oracle_lines(decl, texts)
+        lines.append(f"sent {len(log)}")
+        lines.append("exc ~" if exc is None else f"exc {exc_token(exc)} {lib_mro(exc)}")
+        if log:
+            method, url, headers, body = log[0]
+            lines.append(f"req {tok_str(method)} {tok_str(url)} {tok_str(body if isinstance(body, str) else '')}")
+            for k, v in (headers or {}).items():
+                lines.append(f"hdr {tok_str(str(k))} {tok_str(str(v))}")
+            lines += tl
+            tags.add("sent")
+        else:
+            tags.add("refused:" + (exc_token(exc) if exc else "none"))
+        if prev_sent is not None:
+            tags.add(f"seq:{'sent' if prev_sent else 'refused'}->{'sent' if log else 'refused'}")
+            if not log and not prev_sent and prev_kw == op[1]:
+                tags.add("seq:same-invalid-repeated")
+        prev_sent, prev_kw = bool(log), op[1]
+        for a in decl["args"]:
+            if a["dir"] == "in":
+                tags.add("type:" + a["type"])
+                if a["name"] in kwargs:
+                    tags.add(f"val:{kind_of(a['type'])}<-{val_class(kwargs[a['name']])}")
+                else:
+                    tags.add("val:missing")
+                if a.get("range"):
+                    tags.add("decl:range")
+                if a.get("allowed"):
+                    tags.add("decl:allowed")
+        sig_args = ",".join(sorted(f"{a['type']}:{val_class(kwargs[a['name']]) if a['name'] in kwargs else 'missing'}"
+                                   for a in decl["args"] if a["dir"] == "in"))
+        sigs.append(f"exc={exc_token(exc) if exc else 'none'} sent={len(log)} args={sig_args}")
     case = Case(cid, lines, recipe, any(a["dir"] == "in" for a in decl["args"]), sorted(tags))
-    case.sig = f"C06 exc={exc_token(exc) if exc else 'none'} sent={len(req.log)} args={sig_args}"  # type: ignore[attr-defined]
+    case.sig = "C06 " + " ; ".join(sigs[:6])  # type: ignore[attr-defined]
     return case
 
 
@@ -382,7 +423,9 @@ DEVICE_URLS = ["http://192.168.1.10:8080/desc/root.xml", "http://host/", "http:/
 CONTROL_URLS = ["/ctl/Svc", "ctl", "sub/ctl?x=1", "http://other:99/c", "//other/c", "", "/upnp/control/RenderingControl1",
                 "/c?a=1&b=2", "https://h2/ctl", "control.cgi", "/"]
 SERVICE_TYPES = ["urn:schemas-upnp-org:service:RenderingControl:1", "urn:schemas-upnp-org:service:AVTransport:2",
-                 "urn:acme-corp:service:X_y:12", "urn:schemas-upnp-org:service:ContentDirectory:1", "urn:a:service:é:1"]
+                 "urn:acme-corp:service:X_y:12", "urn:schemas-upnp-org:service:ContentDirectory:1", "urn:a:service:é:1",
+                 # device-controlled text: anything the description can carry (F06c)
+                 "urn:acme&co:service:X:1", "urn:a\"b:service:Q:1", "urn:x<y>:service:It's \"Z\":1", "urn:t\tab:service:n\nl:1"]
 
 STR_ALPHABETS = [
     "abcXYZ 019",
@@ -485,7 +528,7 @@ def rand_decl(rng) -> Dict[str, Any]:
         "strict": rng.random() < 0.8,
         "device_url": rng.choice(DEVICE_URLS),
         "control_url": rng.choice(CONTROL_URLS),
-        "service_type": rng.choice(SERVICE_TYPES),
+        "service_type": rng.choice(SERVICE_TYPES[:5] if rng.random() < 0.75 else SERVICE_TYPES[5:]),
         "action": rand_name(rng),
         "args": [rand_arg_decl(rng, nm, d) for nm, d in zip(names, dirs)],
     }
@@ -585,22 +628,82 @@ def rand_value(rng, a: Dict[str, Any]) -> Any:
     return rand_time(rng, aware=rng.random() < 0.8)
 
 
-def rand_case(rng, allow_known: bool = True) -> Dict[str, Any]:
-    decl = rand_decl(rng)
+def rand_kwargs(rng, decl: Dict[str, Any], valid_bias: Optional[bool] = None) -> List[Any]:
+    """one assignment for the action: mostly of the declared types; `valid_bias=False` forces one bad argument"""
     kw = []
     ins = [a for a in decl["args"] if a["dir"] == "in"]
     drop = rng.random() < 0.08 and ins
     for a in ins:
         kw.append([a["name"], val_json(rand_value(rng, a))])
-    if drop:
+    if valid_bias is False and ins:
+        i = rng.randrange(len(ins))
+        a = ins[i]
+        k = kind_of(a["type"])
+        c = rng.random()
+        if c < 0.3:
+            drop = True
+        elif c < 0.6:  # wrong Python type
+            kw[i] = [a["name"], val_json({"int": "5", "float": 5, "str": 5, "bool": 1}.get(k, "2020-01-01"))]
+        else:          # outside range / list when one is declared, else wrong type
+            r = a.get("range") or {}
+            bad: Any = None
+            try:
+                if k == "int" and r.get("max"):
+                    bad = int(r["max"]) + 1
+                elif k == "int" and r.get("min"):
+                    bad = int(r["min"]) - 1
+                elif k == "float" and r.get("max") and not math.isinf(float(r["max"])):
+                    bad = float(r["max"]) + 1.0
+                elif k == "str" and a.get("allowed"):
+                    bad = "not-a-member"
+            except ValueError:
+                bad = None
+            kw[i] = [a["name"], val_json(bad if bad is not None else None)]
+    if drop and kw:
         kw.pop(rng.randrange(len(kw)))
     if rng.random() < 0.1:
         kw.append(["Extra_" + rand_name(rng), val_json(rng.choice([1, "x", None]))])
     if rng.random() < 0.3:
         rng.shuffle(kw)
     seen = set()
-    kw = [p for p in kw if not (p[0] in seen or seen.add(p[0]))]
-    return {"decl": decl, "kwargs": kw}
+    return [p for p in kw if not (p[0] in seen or seen.add(p[0]))]
+
+
+def rand_reinit(rng, decl: Dict[str, Any]) -> List[Any]:
+    """the device is found again at another location (other host / port / path); sometimes the new
+    description also names another control URL"""
+    r: Dict[str, Any] = {"device_url": rng.choice(DEVICE_URLS + ["http://192.168.1.77:5000/new/desc.xml", "http://[fe80::2]:8080/d.xml"])}
+    if rng.random() < 0.3:
+        r["control_url"] = rng.choice(CONTROL_URLS)
+    return ["reinit", r]
+
+
+def rand_case(rng, allow_known: bool = True) -> Dict[str, Any]:
+    """a history of 1..6 calls on one device / service / action object: the same or different
+    assignments, invalid ones repeated, valid -> invalid -> valid alternations, re-initialisation of
+    the device in place between calls"""
+    decl = rand_decl(rng)
+    shape = rng.random()
+    ops: List[Any] = []
+    if shape < 0.35:
+        ops = [["call", rand_kwargs(rng, decl)]]
+    elif shape < 0.5:      # the same invalid assignment two or three times, then a valid one
+        bad = rand_kwargs(rng, decl, valid_bias=False)
+        ops = [["call", bad] for _ in range(rng.choice([2, 3]))] + [["call", rand_kwargs(rng, decl)]]
+    elif shape < 0.65:     # valid -> invalid -> valid (the same valid one again)
+        good = rand_kwargs(rng, decl)
+        ops = [["call", good], ["call", rand_kwargs(rng, decl, valid_bias=False)], ["call", good]]
+    elif shape < 0.8:      # re-initialised between two calls with the same assignment
+        kw = rand_kwargs(rng, decl)
+        ops = [["call", kw], rand_reinit(rng, decl), ["call", kw]]
+        if rng.random() < 0.3:
+            ops += [rand_reinit(rng, decl), ["call", rand_kwargs(rng, decl)]]
+    else:
+        for _ in range(rng.choice([2, 3, 4, 6])):
+            if rng.random() < 0.15:
+                ops.append(rand_reinit(rng, decl))
+            ops.append(["call", rand_kwargs(rng, decl, valid_bias=False if rng.random() < 0.3 else None)])
+    return {"decl": decl, "ops": ops}
 
 
 def _decl1(t: str, **kw) -> Dict[str, Any]:
@@ -619,6 +722,19 @@ CORPUS = [
     {"decl": _decl1("ui2", range={"min": "0", "max": "100"}), "kwargs": [["X", ["i", "101"]]]},
     {"decl": _decl1("string", allowed=["Master", "LF"]), "kwargs": [["X", ["s", "master"]]]},
     {"decl": _decl1("i4"), "kwargs": []},
+    # histories on one object
+    {"decl": _decl1("ui2", range={"min": "0", "max": "100"}),
+     "ops": [["call", [["X", ["i", "101"]]]], ["call", [["X", ["i", "101"]]]], ["call", [["X", ["i", "5"]]]],
+             ["call", [["X", ["s", "5"]]]], ["call", []], ["call", [["X", ["i", "100"]]]]]},
+    {"decl": _decl1("string", allowed=["Master", "LF"]),
+     "ops": [["call", [["X", ["s", "Master"]]]], ["call", [["X", ["s", "master"]]]], ["call", [["X", ["s", "master"]]]],
+             ["call", [["X", ["s", "LF"]]]]]},
+    {"decl": _decl1("i4"),
+     "ops": [["call", [["X", ["i", "1"]]]], ["reinit", {"device_url": "http://10.9.8.7:4321/other/desc.xml"}],
+             ["call", [["X", ["i", "1"]]]], ["reinit", {"device_url": "https://host.example:8443/x.xml", "control_url": "/else"}],
+             ["call", [["X", ["i", "2"]]]]]},
+    {"decl": dict(_decl1("string"), service_type="urn:acme&co:service:X:1"), "kwargs": [["X", ["s", "v"]]]},          # F06c
+    {"decl": dict(_decl1("string"), service_type="urn:a\"b<c>:service:It's:1"), "kwargs": [["X", ["s", "v"]]]},      # F06c
     {"decl": _decl1("r8"), "kwargs": [["X", ["f", "nan"]]]},
     {"decl": _decl1("boolean"), "kwargs": [["X", ["i", "1"]]]},
     {"decl": _decl1("date"), "kwargs": [["X", ["dt", "2020-01-02T03:04:05+01:00"]]]},
@@ -642,7 +758,7 @@ def generate(ctx: Ctx) -> List[Case]:
     cases: List[Case] = []
     for i, rec in enumerate(CORPUS):
         cases.append(run_recipe(ctx, rec, f"corpus{i}"))
-    n = 100000 if ctx.thorough else 2500
+    n = 60000 if ctx.thorough else 1500
     if ctx.thorough:
         import multiprocessing as mp
         chunk = 2500
